@@ -42,6 +42,8 @@ def run(ctx):
 
 
 def replay(data):
+    if lexeme.is_token_record(data):
+        return lexeme.replay_token("C17", data)
     if lexeme.is_encoder_record(data):
         return lexeme.replay_encoder("C17", data)
     if str(data.get("obligation", "")).startswith("regex:"):
